@@ -797,6 +797,11 @@ def install_deserializer_callees(e) -> None:
             except OutOfSubset:
                 if it.ctx.implied("false"):  # an infeasible path (e.g. past a length check that always raises here): nothing to prove
                     raise epy.PathEnd()
+                if "!invalid@" in it.ctx.contract.label:
+                    # an invalid-input case got PAST its length/tag check on a feasible path: the contract 'raises
+                    # FormatError' is already broken; end the path as a normal return so that the must-raise obligation
+                    # fails (with the solver's model of such an input)
+                    raise epy._Return(epy.NONE)
                 raise
         e.contracts[D + name] = sel
 
@@ -899,8 +904,11 @@ def install_object_model(e, lang, types) -> dict:
         return VConst({k: (wrap(v) if isinstance(v, dict) else VConst(v)) for k, v in d.items()})
 
     def np_empty(it, n, dtype=None):
-        if isinstance(n, VInt) and _int_lit(n.t) is None and it.ctx.implied("false"):
-            raise epy.PathEnd()
+        if isinstance(n, VInt) and _int_lit(n.t) is None:
+            if it.ctx.implied("false"):
+                raise epy.PathEnd()
+            if "!invalid@" in it.ctx.contract.label:
+                raise epy._Return(epy.NONE)
         k = _lit_arg(n, "array length")
         dt = dtype.obj[1] if isinstance(dtype, VConst) and isinstance(dtype.obj, tuple) and dtype.obj[0] == "dtype" else None
         if dt == "object_":
